@@ -111,9 +111,7 @@ theorem swamee_jain_as_Lv (v Dp eps nu : ℝ) (hv : 0 < v) (hD : 0 < Dp) (hn : 0
     (hturb : 2320 < homogeneous.pipe_reynolds_number v Dp nu) :
     homogeneous.swamee_jain_ff (homogeneous.pipe_reynolds_number v Dp nu) Dp eps
       = 1.325 / Lv (eps / (3.7 * Dp)) (5.75 * (nu / Dp) ^ (0.9:ℝ)) v ^ 2 := by
-  unfold homogeneous.swamee_jain_ff
-  have hnl : ¬ homogeneous.pipe_reynolds_number v Dp nu ≤ 2320.0 := by norm_num; exact hturb
-  simp only [hnl, decide_false, Bool.false_eq_true, if_false, Transc.rpow, Transc.npow, Transc.log]
+  rw [swamee_jain_canon, if_neg (not_le.2 hturb)]
   unfold Lv
   rw [reynolds_eq]
   have e := c2_as_k v Dp nu hv hD hn
@@ -142,8 +140,7 @@ theorem il_strictAnti_Dp {vls D1 D2 d eps nu rhol rhos Cv : ℝ} (h1 : InE vls D
   have hD1 := h1.Dp_pos; have hD2 := h2.Dp_pos
   have t1 : 2320 < homogeneous.pipe_reynolds_number vls D1 nu := lt_of_lt_of_le (by norm_num) h1.reynolds_ge
   have t2 : 2320 < homogeneous.pipe_reynolds_number vls D2 nu := lt_of_lt_of_le (by norm_num) h2.reynolds_ge
-  unfold homogeneous.fluid_head_loss
-  simp only [Transc.npow, sci_two]
+  rw [fluid_head_loss_canon, fluid_head_loss_canon]
   rw [swamee_jain_as_Lv vls D1 eps nu hv hD1 hn t1, swamee_jain_as_Lv vls D2 eps nu hv hD2 hn t2]
   have he := h1.eps_pos
   have hs := Real.rpow_pos_of_pos hv (-(0.9:ℝ))
